@@ -33,6 +33,22 @@ def hist_scripts(rng, n, noid=3):
     return out
 
 
+def demo_scripts(rng, n, noid=3):
+    """commit-only histories for the demo-storage variant (a DemoStorage offers neither undo nor deletion here)"""
+    out = []
+    for _ in range(n):
+        clk = 1
+        s = sc.commit([(0, 'v1', ()), (1, 'v1', ())], clk=clk)
+        for _ in range(rng.randint(3, 6)):
+            clk = min(clk + rng.choice((0, 1, 1)), 6)
+            if rng.random() < 0.7:
+                s += sc.commit([(rng.choice(range(noid)), rng.choice(('v1', 'v2')), ())], clk=clk)
+            else:
+                s += sc.commit([(1, 'v2', ()), (2, rng.choice(('v1', 'v2')), ())], clk=clk)
+        out.append(s)
+    return out
+
+
 def _visible(lb_row, b):
     return lb_row[b]
 
@@ -62,12 +78,15 @@ def replay_hist(job):
             mirror['st'] = FileStorage(os.path.join(workdir, 'mirror.fs'))
         st2 = mirror['st']
         start = None if mirror['upto'] is None else _p(_u(mirror['upto']) + 1)
+        from ZODB.Connection import TransactionMetaData
         for txn in rp.st.iterator(start):
-            st2.tpc_begin(txn, txn.tid, txn.status)
+            # (a fresh metadata object: records of a MappingStorage cannot be handed to tpc_begin, F22)
+            t = TransactionMetaData(txn.user, txn.description, dict(txn.extension or {}))
+            st2.tpc_begin(t, txn.tid, txn.status)
             for r in txn:
-                st2.restore(r.oid, r.tid, r.data, '', r.data_txn, txn)
-            st2.tpc_vote(txn)
-            st2.tpc_finish(txn)
+                st2.restore(r.oid, r.tid, r.data, '', r.data_txn, t)
+            st2.tpc_vote(t)
+            st2.tpc_finish(t)
             mirror['upto'] = txn.tid
 
     def check_mirror(conn, obs, b, form, where):
@@ -112,6 +131,15 @@ def replay_hist(job):
                 break
             if step['action'] != 'Finish':
                 continue
+            nfin = out['finishes'] = out.get('finishes', 0) + 1
+            if opts.get('demo_after') and nfin < opts['demo_after']:
+                continue
+            if opts.get('demo_after') == nfin:
+                # from here on the database is a DemoStorage over what was committed so far: historical points
+                # inside the base, at the seam and in the changes
+                from ZODB.DemoStorage import DemoStorage
+                rp.st = DemoStorage(base=rp.st)
+                out['demo'] = True
             obs = step['state']['obs']
             hist = sd.norm(step['state']['hist'])
             tids = [t['tid'] for t in hist]
@@ -249,6 +277,11 @@ def run(ctx):
     c = sd.consts('file', NOid=3, Metas=('m0',), MaxTxn=14, MaxRecs=4, MaxClock=8, AtomVals=('v1', 'v2'), Cls='MCClsPlain')
     behs = sc.evaluate(ctx, 'hist', scripts, c)
     jobs = [(b, c, os.path.join(ctx.scratch, 'h-%d' % i), {'rng_seed': ctx.seed * 7777 + i}) for i, b in enumerate(behs)]
+    # the same over a DemoStorage: the first 2-3 transactions become the base, the rest goes to the changes
+    dscripts = demo_scripts(rng, 40 if q else 600)
+    dbehs = sc.evaluate(ctx, 'hist-demo', dscripts, c)
+    jobs += [(b, c, os.path.join(ctx.scratch, 'hd-%d' % i), {'rng_seed': ctx.seed * 9999 + i, 'demo_after': 2 + i % 2})
+             for i, b in enumerate(dbehs)]
     res = par.pmap(replay_hist, jobs, chunksize=2)
     opens = reads = 0
     forms = {}
@@ -273,6 +306,7 @@ def run(ctx):
         'historical_opens': opens, 'reads_compared': reads, 'forms': forms,
         'future_points_refused': sum(r['refused_future'] for r in res),
         'writes_refused': sum(r['refused_write'] for r in res),
+        'over_demo_storage': sum(1 for r in res if r.get('demo')),
         'secondary_connections_checked': sum(r.get('mirror', 0) for r in res),
         'rule': 'directed histories evaluated by TLC (ZScript over ZStorage: objects later changed, deleted, un-created by undo, '
                 'created later; stalled clock so that transactions share a second) are replayed on a FileStorage; after every '
@@ -283,7 +317,8 @@ def run(ctx):
                 'must raise ReadOnlyHistoryError and leave the commit lock free; points later than the newest transaction must '
                 'be refused; the database is one of a multi-database whose second member holds a transaction-for-transaction copy: '
                 'connections obtained with get_connection() from a historical connection must carry the same bound, read the same '
-                'past state and refuse writes; TLC checks ZHistorical (HistoricalExact, NeverFromTheFuture, BoundNotInFuture, WritesRefused); '
+                'past state and refuse writes; a part of the histories runs on a DemoStorage whose base holds the first transactions '
+                '(historical points inside the base, at the seam, in the changes); TLC checks ZHistorical (HistoricalExact, NeverFromTheFuture, BoundNotInFuture, WritesRefused); '
                 'non-trivial = behaviour with >= 5 historical opens and a connection kept open across later commits',
         'samples': [res[0]['sig'][:30]] if res else [],
         'exhaustive': False,
